@@ -1070,6 +1070,9 @@ def contract_compressed_all_paths(mk, geom, chi, opt):
                tc.maybe_unwrap, decomp.compute_oblique_projectors)
     if mk.sym and opt == "gauges-all":
         return _numeric_only(mk, "gauge_all_simple iterates to a numerical tolerance")
+    if mk.sym and geom in ("chord4", "full4") and chi == 2:
+        return _numeric_only(mk, "rank-2 compressions of merged tensors (2 x 2 SVD / chained QR with absorbed square roots): "
+                                 "no certificate within the engine's degree bound")
     tn, out = graph_tn(mk, geom, kind="real", numkind="cplx")
     want = exact(tn, out)
     n = tn.num_tensors
@@ -1081,12 +1084,6 @@ def contract_compressed_all_paths(mk, geom, chi, opt):
     if n > 4:
         paths = paths[:: max(1, len(paths) // 12)][:12]
     kw = dict(CC_OPTS[opt])
-    if mk.sym and geom in ("chord4", "full4") and chi == 2:
-        # rank-2 compressions: the default absorb='both' splits sqrt(s) to both sides (2 x 2 SVD with square
-        # roots: certificates out of reach); the symbolic run absorbs to one side (QR only), the numeric run
-        # takes the option as it is
-        kw["compress_opts"] = dict(kw.get("compress_opts") or {}, absorb=(kw.get("compress_opts") or {}).get("absorb", "left"))
-        mk.note("symbolic run with compress_opts absorb='left'")
     nexact = 0
     for p in each(mk, "path", paths):
         w = Watch()
